@@ -75,6 +75,18 @@ reg(Spec("C05", "c05_text.cpp", needs=("shim", "optable", "makedsp1"), custom="e
          assumptions=["harness objects of the C05 executable that include decoder.h need a gen_recorder.h (build dependency only)",
                       "'$xxxx' in firmware sources marks the second word exactly where its four hex digits are printed (as makedsp1 assumes)"]))
 
+reg(Spec("C20", "c20_words.cpp", needs=("shim", "optable"), custom="exhaustive",
+         rule="D1: each of the 19 words x all 65536 values (worker i takes v % 16 == i) x 8 (quick) / 64 (thorough) generated "
+              "register states through RegisterState::Set<>/Get<>: resulting state (every field incl. shadow banks) and read-back "
+              "equal the golden layout model, 44 dual-view bit pairs + the TeakLite limit flag agree, Set(Get()) is the identity "
+              "without an active loop; D1i sampled values through 'mov #imm16, W' and 'push W'; D2: every first word with ar/arp "
+              "operands x 96 / 512 generated ar/arp words: register moved and cells accessed by the interpreter equal what the "
+              "annotated disassembly names; one full pass of the project's generator: the register the disassembler names is "
+              "pinned in its window. Non-trivial / distinct = (word, value).",
+         assumptions=["golden layout transcribed from the pinned register.h and the verifier's flag strings (regression oracle)",
+                      "D2 runs with modulo and bit reversal off, end-pointer modes off, stepi=5, stepj=-3, distinct marker addresses",
+                      "forms naming the same register twice and bkrepsto/bkreprst (frame pointer moves by the frame size) are exempt from the step clause"]))
+
 # Properties not (yet) claimed. Kept current by hand; every id in properties.jsonl is either in SPECS or here.
 _PENDING = "check not built yet in this round; planned with property-based testing per DESIGN.md"
 NOT_APPLICABLE = [{"property_id": "C%02d" % i, "reason": _PENDING} for i in range(1, 21) if "C%02d" % i not in SPECS]
